@@ -405,3 +405,80 @@ func c02MergePairing(c *Ctx) {
 		}
 	}
 }
+
+// ---- C02.decide-by-time: the row merge decides by times and presence, never by values ------------
+
+func init() {
+	register(&Rule{Name: "C02.decide-by-time", Min: 4, Run: c02DecideByTime,
+		Doc: "every branch of MergeRows depends only on delete flags, column presence and write times — never on the column values themselves"})
+	byProp["C02"] = append(byProp["C02"], "C02.decide-by-time", "C03.merge-inserts")
+	byProp["C01"] = append(byProp["C01"], "C02.decide-by-time")
+	explain["C02"] += " decide-by-time: last-write-wins means the winner of a column is chosen by write time alone; a branch that looks at the values (\"equal values are no conflict, keep the entry that is there\") keeps the older write time and lets a third, in-between write win later. merge-inserts (shared with C03): the merge callback is applied, and its result inserted, for every key whose entries differ."
+}
+
+func c02DecideByTime(c *Ctx) {
+	const rule = "C02.decide-by-time"
+	fn := mustFunc(c, "", "", "MergeRows")
+	if fn == nil {
+		return
+	}
+	name := core.FuncName(fn)
+	allowedCallee := func(call *ssa.Call) bool {
+		f := call.Call.StaticCallee()
+		if bi, ok := call.Call.Value.(*ssa.Builtin); ok {
+			return bi.Name() == "len"
+		}
+		if f == nil {
+			return false
+		}
+		p := an.PkgPathOf(f)
+		switch {
+		case p == "time":
+			return true
+		case p == core.ModPath && (f.Name() == "UpdateTime" || f.Name() == "DeleteUpdateTime" || f.Name() == "hideDeletedValue"):
+			return true
+		case strings.HasSuffix(p, "durationpb"):
+			return true
+		case strings.HasPrefix(p, core.ModPath+"/proto/") && strings.HasPrefix(f.Name(), "Get"):
+			return true
+		}
+		return false
+	}
+	n := 0
+	for _, b := range fn.Blocks {
+		iff, ok := b.Instrs[len(b.Instrs)-1].(*ssa.If)
+		if !ok {
+			continue
+		}
+		// loop control of the range statements is not a merge decision
+		if _, isNext := an.Unwrap(iff.Cond).(*ssa.Extract); isNext {
+			if ex := iff.Cond.(*ssa.Extract); ex != nil {
+				if _, ok := ex.Tuple.(*ssa.Next); ok {
+					continue
+				}
+			}
+		}
+		n++
+		var offending string
+		an.DependsOn(iff.Cond, func(v ssa.Value) bool {
+			switch x := v.(type) {
+			case *ssa.Call:
+				if !allowedCallee(x) {
+					offending = "call of " + calleeLabel(x)
+					return true
+				}
+			case *ssa.BinOp:
+				// comparing two loaded column values directly
+				if (x.Op == token.EQL || x.Op == token.NEQ) && !an.IsNilConst(x.X) && !an.IsNilConst(x.Y) {
+					if fx, fy := an.FieldOfLoad(x.X), an.FieldOfLoad(x.Y); fx != nil && fy != nil && fx.Name() == "Value" {
+						offending = "comparison of two column values"
+						return true
+					}
+				}
+			}
+			return false
+		})
+		c.R.Cond(offending == "", rule, fmt.Sprintf("%s: decision #%d depends on flags, presence and times only", name, n), c.P.Pos(iff.Pos()),
+			"no value-dependent input", "a merge decision depends on "+offending+": the winner of a column is no longer chosen by write time alone (e.g. equal values keep the older assignment time, so a write in between wins later)")
+	}
+}
